@@ -71,6 +71,10 @@ type Server struct {
 	gate func(StmtInfo)
 	obs  func(Entry)
 
+	// detectWaits: an insert / COPY whose unique key is held by the UNCOMMITTED write set of
+	// another session's open transaction is answered with 55P03 (see SetDetectWaits)
+	detectWaits bool
+
 	closed bool
 	wg     sync.WaitGroup
 }
@@ -215,6 +219,34 @@ func (s *Server) OpenConns() int {
 	s.mu.Lock()
 	defer s.mu.Unlock()
 	return len(s.conns)
+}
+
+// OpenTransactions lists the connections (ids, ascending) that have an explicit
+// transaction open right now (begun, neither committed nor rolled back; an aborted
+// transaction that was not ended yet counts: it still holds its locks).
+func (s *Server) OpenTransactions() []int {
+	s.mu.Lock()
+	defer s.mu.Unlock()
+	var ids []int
+	for id, c := range s.conns {
+		if !c.dead && c.tx != nil && !c.tx.implicit {
+			ids = append(ids, id)
+		}
+	}
+	sort.Ints(ids)
+	return ids
+}
+
+// SetDetectWaits: with on, an insert / COPY of a row whose unique key equals that of a
+// row in the uncommitted write set of ANOTHER session's open transaction (aborted ones
+// included: they keep their index entries until they end) is not executed: real Postgres
+// would make the statement WAIT for that transaction; a single-threaded script cannot
+// wait, so the statement fails with SQLSTATE 55P03 (lock_not_available) and a message
+// naming the situation.  Off (the default): the collision surfaces at COMMIT only.
+func (s *Server) SetDetectWaits(on bool) {
+	s.mu.Lock()
+	s.detectWaits = on
+	s.mu.Unlock()
 }
 
 // Exec runs a script directly against the committed state (admin access:
@@ -630,6 +662,18 @@ func (c *conn) performLocked(st Stmt, params []Value, copyData []byte) (*result,
 	}
 	c.acquireLocksLocked(st, params)
 	x := &execCtx{d: s.db, tx: c.tx, params: params}
+	if s.detectWaits {
+		ids := make([]int, 0, len(s.conns))
+		for id := range s.conns {
+			ids = append(ids, id)
+		}
+		sort.Ints(ids)
+		for _, id := range ids {
+			if o := s.conns[id]; id != c.id && !o.dead && o.tx != nil && !o.tx.implicit {
+				x.others = append(x.others, o.tx)
+			}
+		}
+	}
 	var res *result
 	var err error
 	if cs, ok := st.(*CopyStmt); ok {
